@@ -234,6 +234,40 @@ def run(chk):
                          f"integral by {max(abs(f_ - w_) for f_, w_ in zip(fl_, want)):.2e}", info)
                 break
 
+    # ---- strong feedback between field and systems with environments that are switched off (alpha = 0: no truncation error
+    # anywhere), so that the two methods must agree to rounding: Hamiltonians that depend strongly on the field, a field equation
+    # that depends on time, states and the field itself ----------------------------------------------------------------------
+    for it in range(6 if thorough else 2):
+        dt, N, start = rng.choice([0.1, 0.2]), rng.randint(4, 7), rng.choice([0.0, 0.7])
+        nsys = rng.choice([1, 2])
+        corr_ = oqupy.PowerLawSD(alpha=0.0, zeta=1, cutoff=2.0, cutoff_type="exponential", temperature=0.1)
+        hs_, cs_ = [0.4 * SX + 0.1 * SZ, np.diag([0.0, 0.5, 1.2]).astype(complex) + 0.3 * np.diag([1.0, 1.0], 1) + 0.3 * np.diag([1.0, 1.0], -1)], [SZ, np.diag([1.0, 0.0, -1.0])]
+        g_ = rng.choice([0.8, 1.5])
+        ss_ = [oqupy.TimeDependentSystemWithField(lambda t, a, i=i: hs_[i] + g_ * (a.real + 0.3 * a.imag + 0.2 * t) * cs_[i]) for i in range(nsys)]
+        eom_ = lambda t, st, a: (-1.3j - 0.4) * a + 0.5 * t + sum(0.7 * np.trace(st[i] @ cs_[i]) for i in range(nsys))
+        mfs_ = oqupy.MeanFieldSystem(ss_, field_eom=eom_)
+        par_ = oqupy.TempoParameters(dt=dt, epsrel=1e-10, dkmax=2, subdiv_limit=None)
+        baths_ = [oqupy.Bath(0.5 * cs_[i], corr_) for i in range(nsys)]
+        r0s_ = [np.array([[0.6, 0.2 - 0.1j], [0.2 + 0.1j, 0.4]]), np.diag([0.5, 0.3, 0.2]).astype(complex) + 0.1 * (np.diag([1.0, 1.0], 1) + np.diag([1.0, 1.0], -1))][:nsys]
+        a0 = 0.4 + 0.1j
+        info = {"kind": "strong-feedback-zero-coupling", "systems": nsys, "dt": dt, "N": N, "start": start, "feedback": g_}
+        chk.search_cases += 1
+        chk.count("strong_feedback")
+        chk.case(info, ("feedback", nsys, dt, N, start, g_))
+        try:
+            d1 = quiet(oqupy.MeanFieldTempo(mfs_, baths_, par_, r0s_, a0, start).compute, start + N * dt, progress_type="silent")
+            pts_ = [quiet(oqupy.pt_tempo_compute, b_, start, start + N * dt, parameters=par_, progress_type="silent") for b_ in baths_]
+            d2 = quiet(oqupy.compute_dynamics_with_field, mfs_, a0, process_tensor_list=pts_, start_time=start, initial_state_list=r0s_, subdiv_limit=None, progress_type="silent")
+        except Exception as ex:
+            chk.fail("meanfield-raises", f"mean-field drivers raise {ex!r}", info)
+            continue
+        dev = np.abs(np.array(d1.fields) - np.array(d2.fields)).max()
+        for i in range(nsys):
+            dev = max(dev, np.abs(np.array(d1.system_dynamics[i].states) - np.array(d2.system_dynamics[i].states)).max())
+        if dev > 1e-9 or list(d1.times) != list(d2.times):
+            chk.fail("methods-disagree", f"MeanFieldTempo and compute_dynamics_with_field differ by {dev:.2e} with the environments switched off "
+                     f"(strong feedback between field and systems, {N} steps)", info)
+
     # ---- systems that do not depend on the field: each evolves exactly as in a plain TEMPO run / plain compute_dynamics with
     # the same (explicitly time-dependent) Hamiltonian, rates and Lindblad operators ---------------------------------------
     for it in range(9 if (thorough or chk.disagreements or chk.broken) else 3):
